@@ -183,7 +183,12 @@ def run(tier: str) -> int:
         stats["identical_node_pairs"] += sum(1 for a in range(len(nodes)) for b in range(a + 1, len(nodes)) if nodes[a] == nodes[b])
         if len(set(base["uuids"])) != len(base["uuids"]):
             rep.add_violation("node-uuids-not-distinct", "two nodes of one pipeline have the same UUID", {"nodes": nodes, "uuids": base["uuids"]})
+        meaning = [idgen.to_j(idgen.resolve_doc(n.get("parameters") or {})) for n in nodes]
         for op, mutant, idx in mutations(nodes, rnd):
+            if op.startswith("parameter-value") and [idgen.to_j(idgen.resolve_doc(n.get("parameters") or {})) for n in mutant] == meaning:
+                # e.g. "model:M:degree=2" -> "model:M:degree=2 ": the shorthand denotes the same descriptor, not a semantic change
+                stats["same_meaning_skipped"] = stats.get("same_meaning_skipped", 0) + 1
+                continue
             stats["mutants"] += 1
             stats["by_operator"][op] = stats["by_operator"].get(op, 0) + 1
             try:
